@@ -210,24 +210,32 @@ fn denote_uci(legal: &[Mv], f: u8, t: u8, pr: u8) -> Option<Mv> {
     legal.iter().cloned().find(|m| m.from == f && m.to == t && m.promo == pr)
 }
 
-/// SAN: the unique legal move agreeing with the text, if the model can read the text
-fn denote_san(p: &Pos, legal: &[Mv], t: &str) -> (Option<Mv>, bool) {
+/// SAN: the unique legal move agreeing with the text, if the model can read the text.
+/// Third component: is a refusal of this (denoting) text a violation? Yes for castling,
+/// coordinate and abbreviated pawn-capture texts, and for piece / pawn texts whose capture mark
+/// (if any) is consistent with the move; a text that says `x` for a non-capture does not denote
+/// the move in standard notation, so its refusal is not judged.
+fn denote_san(p: &Pos, legal: &[Mv], t: &str) -> (Option<Mv>, bool, bool) {
     match text::read_san(t) {
         Some(d) => {
             let a: Vec<Mv> = legal.iter().cloned().filter(|&m| text::agrees(p, m, &d)).collect();
             if a.len() == 1 {
-                (Some(a[0]), true)
+                let strict = match d {
+                    text::Desc::Castle(_) | text::Desc::Coord(..) | text::Desc::PawnShort { .. } => true,
+                    _ => !text::has_capture_mark(t) || p.is_capture(a[0]),
+                };
+                (Some(a[0]), true, strict)
             } else {
-                (None, true)
+                (None, true, false)
             }
         }
-        None => (None, false),
+        None => (None, false, false),
     }
 }
 
 fn san_text(ctx: &mut Ctx, st: &mut St, t: &str, canonical_of: Option<Mv>, chain: bool) {
     let p = st.p;
-    let (d, readable) = denote_san(p, &st.legal.clone(), t);
+    let (d, readable, strict) = denote_san(p, &st.legal.clone(), t);
     if !readable {
         // the model cannot say what the text denotes: legality of an accepted result is C09's
         // business; here only "no panic, refusal leaves the board alone" is exercised, with the
@@ -245,10 +253,10 @@ fn san_text(ctx: &mut Ctx, st: &mut St, t: &str, canonical_of: Option<Mv>, chain
         }
     }
     ctx.add(SANS, 1);
-    apply_value(ctx, st, "San(str)", t, || San(t.to_string()), d, canonical_of.is_some(), chain);
+    apply_value(ctx, st, "San(str)", t, || San(t.to_string()), d, canonical_of.is_some() || strict, chain);
     if let Ok(v) = t.parse::<san::Move>() {
         ctx.add(SANV, 1);
-        apply_value(ctx, st, "san::Move", t, || v, d, canonical_of.is_some(), chain);
+        apply_value(ctx, st, "san::Move", t, || v, d, canonical_of.is_some() || strict, chain);
     }
 }
 
@@ -304,6 +312,18 @@ pub fn check_pos_level(ctx: &mut Ctx, p: &Pos, b: &Board, level: u8) {
             // text may denote another, legal, move or nothing
             let t = text::san_naive(p, m);
             san_text(ctx, &mut st, &t, None, chain);
+        }
+    }
+    // the abbreviated text of every pseudo-legal pawn capture (each text once)
+    {
+        let mut seen = std::collections::HashSet::new();
+        for m in p.pseudo_vec() {
+            if kind(p.b[m.from as usize]) == P && m.from % 8 != m.to % 8 {
+                let t = text::san_short(m);
+                if seen.insert(t.clone()) {
+                    san_text(ctx, &mut st, &t, None, chain);
+                }
+            }
         }
     }
     ctx.add(MV, 1);
@@ -416,9 +436,9 @@ pub fn run(run: &mut Run) {
     };
     run_universes(run, &l1, DISAGREE, &check_pos_mid);
     let l0 = if thorough {
-        Sel { ep: Some(true), castle: Some(true), promo: Some(true), reach: Some(4), counters: true, pin2: Some(4), ..Default::default() }
+        Sel { ep: Some(true), castle: Some(true), promo: Some(true), reach: Some(4), counters: true, pin2: Some(4), pawncap2: true, promo2: true, clocks: true, ..Default::default() }
     } else {
-        Sel { ep: Some(false), castle: Some(false), promo: Some(false), reach: Some(3), counters: true, pin2: Some(2), ..Default::default() }
+        Sel { ep: Some(false), castle: Some(false), promo: Some(false), reach: Some(3), counters: true, pin2: Some(2), pawncap2: true, clocks: true, ..Default::default() }
     };
     run_universes(run, &l0, DISAGREE, &check_pos);
     p30_strings(run, if thorough { 4 } else { 3 });
